@@ -257,3 +257,12 @@ def run(F, R, tier):
         miss = [f for f in fields if f not in used]
         R.check(not miss and set(fields) == {"path", "queryParameters"}, "C02.R5", "C02.R5:%s:privilege-attributes" % pm["id"], "%s:%s" % (priv["file"], priv["line"]),
                 "Privilege attributes %s are all consulted by is_match" % fields, "Privilege attributes %s; not consulted: %s" % (fields, miss))
+
+    # ------------------------------------------------------------------ R7 the rule document reaches the evaluator unchanged
+    # KeyStatus::get_*_rules() hand the host's rule sections to from_authorization_item through *hand-written* Clone impls
+    from lib import contracts
+    R.rule("C02.R7", "hand-written Clone impls of the rule document types are content-blind and field-faithful")
+    ims = [im for im in contracts.handwritten_impls(F, "clone::Clone", ("azure_proxy_agent",)) if "/key_keeper/key.rs" in im["file"]]
+    for im in ims:
+        contracts.faithful_clone(F, R, "C02.R7", im)
+    R.floor("C02.R7", len(ims), 5, "hand-written Clone impls in key_keeper/key.rs (AuthorizationItem, Privilege, Role, Identity, RoleAssignment, Key)")
